@@ -163,7 +163,7 @@ LINK_KINDS = ["func", "func", "lambda", "method", "classmethod", "staticmethod",
               "viamap", "viasorted", "coro", "prop", "execmod", "evalstr", "genexpr"]
 PLAIN_LEAVES = ["plain", "plain", "lambda", "exc", "method", "modlevel", "classbody", "gen", "comp", "genexpr", "evalstr"]
 CATCH_LEAVES = ["with", "with_nested", "deco_func", "deco_func_paren", "deco_gen", "deco_coro", "deco_agen", "async_with",
-                "deco_agen_for"]
+                "deco_agen_for", "deco_gen_split", "deco_coro_split"]
 
 
 class Mod:
@@ -361,6 +361,13 @@ class Chain:
         l = mod.add("async def %s_af():\n    async for _ in DEC_A():\n        pass\ndef %s_afd():\n    c = %s_af()\n    try:\n"
                     "        c.send(None)\n    except StopIteration:\n        pass" % (n, n, n))
         L["deco_agen_for"] = (n + "_afd", [t(mod, n + "_afd", l + 6), t(mod, n + "_af", l + 1)])
+        # ---- created in one frame, driven to the exception in another one (and after a first, harmless resumption): the
+        # record names the frame that RESUMED the generator / coroutine when it failed, not the one that called the wrapper
+        l = mod.add("def %s_gmk():\n    return DEC_G()\ndef %s_gsd():\n    g = %s_gmk()\n    next(g)\n    return next(g, None)" % (n, n, n))
+        L["deco_gen_split"] = (n + "_gsd", [t(mod, n + "_gsd", l + 5)])
+        l = mod.add("def %s_cmk():\n    return DEC_C()\ndef %s_csd():\n    c = %s_cmk()\n    try:\n        c.send(None)\n"
+                    "    except StopIteration:\n        pass" % (n, n, n))
+        L["deco_coro_split"] = (n + "_csd", [t(mod, n + "_csd", l + 5)])
         self.raw = {"DEC_F": n + "_r", "DEC_FP": n + "_r", "DEC_G": n + "_graw", "DEC_C": n + "_craw", "DEC_A": n + "_araw"}
 
     def tags_for(self, leaf):
@@ -616,7 +623,8 @@ def run_jobs(jobs, prepare, in_thread, foreign, sink):
 # ----------------------------------------------------------------------------- one chain
 SHAPE_OF = {"with": "with", "with_nested": "with", "deco_func": "function", "deco_func_paren": "function",
             "deco_gen": "generator", "deco_coro": "coroutine", "deco_agen": "asyncgen.asend",
-            "async_with": "async with", "deco_agen_for": "asyncgen.__anext__"}
+            "async_with": "async with", "deco_agen_for": "asyncgen.__anext__", "deco_gen_split": "generator",
+            "deco_coro_split": "coroutine"}
 FINDING_KEY = {"async_with": KEY_ASYNC_WITH, "deco_agen_for": KEY_ASYNC_FOR}
 
 
@@ -637,7 +645,7 @@ def make_jobs(chain, rng, ctx, full_sweep, total_hint):
     if full_sweep == "product":
         # every method x derivation x plain leaf, every catch leaf x derivation; depths: 0, 1, just beyond the stack
         for d in (0, 1, total_hint + 2):
-            for via in VIAS:
+            for via in sorted(set(VIAS)):
                 for leaf in sorted(set(leaves_plain)):
                     for m in METHODS:
                         jobs.append({"leaf": leaf, "method": m, "via": via, "depth": d, "flags": rng.below(1 << 16), "reraise": False})
@@ -809,8 +817,11 @@ def run_chain(ctx, env, chain_state, nlinks, in_thread, foreign, full_sweep, lin
             if verbose:
                 print("  " + full)
         # ---- the same case for the Lean model
+        # (in the exhaustive product the model sees three of the derivations: its answer does not depend on the others –
+        # the interpreted driver costs about 1 ms per line)
         if len(rs) == 1 and lines is not None and getattr(rs[0]["time"], "tzinfo", None) is not None \
-                and hasattr(rs[0]["elapsed"], "days"):
+                and hasattr(rs[0]["elapsed"], "days") \
+                and (full_sweep != "product" or job["via"] in ("direct", "seq", "bind_patch_opt")):
             rec = rs[0]
             kind = "c" if is_catch else "m"
             nm = SHAPE_OF[leaf] if is_catch else job["method"]
@@ -1097,9 +1108,13 @@ def gen_ops(rng, depth=0):
             ops.append(["rename_thread", rng.choice(ACTOR_NAMES)])
         elif r < 85:
             ops.append(["rename_process", rng.choice(ACTOR_NAMES)])
-        elif depth < 2:
+        elif depth < 2 and r < 95:
             ops.append(["thread", rng.choice(["threading", "threading", "_thread"]), rng.choice(ACTOR_NAMES + [None]),
                         gen_ops(rng, depth + 1)])
+        elif depth < 2 and hasattr(os, "fork"):
+            # a raw os.fork() from the current thread (after whatever this thread has logged so far): the child goes on
+            # logging; anything remembered per thread / per process object / per logger in the parent is stale there
+            ops.append(["fork", gen_ops(rng, 2)])
     ops.append(["log", rng.choice(METHODS)])
     return ops
 
@@ -1138,6 +1153,48 @@ def run_ops(lg, ops, out, path="0"):
             threading.current_thread().name = op[1]
         elif kind == "rename_process":
             multiprocessing.current_process().name = op[1]
+        elif kind == "fork":
+            p_ = "%s.%d" % (path, i)
+            r_, w_ = os.pipe()
+            pid = os.fork()
+            if pid == 0:
+                code = 1
+                try:
+                    os.close(r_)
+                    sub = []
+                    try:
+                        run_ops(lg, op[1], sub, p_ + "f")
+                    except BaseException as e:  # noqa: BLE001
+                        sub.append({"at": p_, "crash": repr(e)})
+                    data = json.dumps(sub).encode()
+                    while data:
+                        n_ = os.write(w_, data)
+                        data = data[n_:]
+                    code = 0
+                finally:
+                    os._exit(code)
+            os.close(w_)
+            chunks = []
+            deadline = time.time() + 60
+            while True:
+                ready, _, _ = select.select([r_], [], [], max(0.0, deadline - time.time()))
+                if not ready:
+                    break
+                b = os.read(r_, 65536)
+                if not b:
+                    break
+                chunks.append(b)
+            os.close(r_)
+            try:
+                if time.time() >= deadline:
+                    os.kill(pid, signal.SIGKILL)
+            except OSError:
+                pass
+            os.waitpid(pid, 0)
+            try:
+                out.extend(json.loads(b"".join(chunks).decode()))
+            except ValueError:
+                out.append({"at": p_, "crash": "forked child gave no answer"})
         elif kind == "thread":
             done = threading.Event()
             sub = []
@@ -1202,7 +1259,7 @@ def run_identity_inproc(env, scenario):
 
 def stream_identity(ctx, env):
     rng = ctx.rng.fork("identity")
-    for i in range(ctx.n(40, 1500)):
+    for i in range(ctx.n(40, 600)):
         sc = {"actor": rng.choice(["main", "threading", "threading", "_thread"]), "tname": rng.choice(ACTOR_NAMES + [None]),
               "ops": gen_ops(rng)}
         obs = run_identity_inproc(env, sc)
@@ -1312,11 +1369,181 @@ def gen_mp_scenarios(rng, n):
 
 def stream_identity_mp(ctx, env):
     rng = ctx.rng.fork("identity-mp")
-    scenarios = gen_mp_scenarios(rng, ctx.n(6, 45))
+    scenarios = gen_mp_scenarios(rng, ctx.n(6, 30))
     results = run_identity_mp(scenarios)
     for sc, obs in zip(scenarios, results):
         ctx.stat("mp_children:" + sc["ctx"])
         judge_ops(ctx, obs, {"stream": "identity-mp", "scenario": sc}, "multiprocessing %s child" % sc["ctx"])
+
+
+# ----------------------------------------------------------------------------- shared Catcher objects
+# ONE object returned by `logger.catch(...)` (and the wrappers it decorates) used by several actors whose exits OVERLAP:
+# the depth arithmetic of Catcher.__exit__/__aexit__ must be per CALL, not per object.  The overlap is forced through
+# the catcher's own `onerror` callback: in mode "threads" actor A is parked inside its exit (in onerror) until actor B,
+# another thread, has gone through its own exit on the same object; in mode "nested" A's onerror itself runs B (a
+# re-entrant use in the same thread, inside A's exit).  Every record is judged by the tags of ITS actor's chain.
+SHARED_LEAVES = ["with", "with_nested", "async_with", "deco_func", "deco_gen", "deco_coro", "deco_agen", "deco_agen_for",
+                 "deco_gen_split"]
+
+
+def run_shared(ctx, env, sc, lines=None, pending_cmp=None, verbose=False):
+    """scenario: {"a": {"state", "nlinks", "leaf"}, "b": {...}, "mode", "depth", "same_wrappers"}; returns #bad"""
+    chains = {}
+    for who in ("a", "b"):
+        chains[who] = Chain(rng_from_state(sc[who]["state"]), sc[who]["nlinks"])
+    d = sc["depth"]
+    lg = env.logger.opt(depth=d) if d else env.logger
+    if sc.get("bind"):
+        lg = lg.bind(shared=1)
+    state = {"level": 0, "errors": []}
+    in_window, other_done = threading.Event(), threading.Event()
+    parked = {}
+
+    def run_actor(who):
+        ch, leaf = chains[who], sc[who]["leaf"]
+        r0 = None
+        try:
+            ch.thunk(leaf)()
+        except BaseException as e:  # noqa: BLE001
+            state["errors"].append((who, repr(e)))
+        return r0
+
+    def hook(_exc):
+        if sc["mode"] == "nested":
+            state["level"] += 1
+            if state["level"] == 1:
+                run_actor("b")          # a re-entrant use of the same objects from inside A's exit
+            return
+        if threading.get_ident() == parked.get("tid"):
+            in_window.set()
+            if not other_done.wait(20):
+                state["errors"].append(("a", "actor B did not finish while A was parked"))
+
+    shared = lg.catch(onerror=hook)
+    wrappers = {}
+    for who in ("a", "b"):
+        ch = chains[who]
+        g = ch.leafmod.g
+        g["CM"] = lambda: shared
+        src = chains["a"] if sc.get("same_wrappers") else ch      # the SAME decorated objects called by both actors
+        if who == "a" or not sc.get("same_wrappers"):
+            wrappers[who] = {k: shared(src.leafmod.g[src.raw[k]]) for k in ("DEC_F", "DEC_G", "DEC_C", "DEC_A")}
+            wrappers[who]["DEC_FP"] = wrappers[who]["DEC_F"]
+        else:
+            wrappers[who] = wrappers["a"]
+        g.update(wrappers[who])
+    sink = env.sink
+    r0 = len(sink.records)
+    tids = {}
+    if sc["mode"] == "nested":
+        tids["a"] = tids["b"] = threading.get_ident()
+        run_actor("a")
+    else:
+        def ta():
+            parked["tid"] = tids["a"] = threading.get_ident()
+            try:
+                run_actor("a")
+            finally:
+                in_window.set()
+
+        def tb():
+            tids["b"] = threading.get_ident()
+            try:
+                if not in_window.wait(20):
+                    state["errors"].append(("b", "actor A never reached its exit"))
+                run_actor("b")
+            finally:
+                other_done.set()
+        tha, thb = threading.Thread(target=ta, name="c17-shared-a"), threading.Thread(target=tb, name="c17-shared-b")
+        tha.start(); thb.start()
+        tha.join(60); thb.join(60)
+        if tha.is_alive() or thb.is_alive():
+            other_done.set(); in_window.set()
+            raise RuntimeError("C17 harness: shared-catcher scenario did not finish: %r" % (sc,))
+    recs = sink.records[r0:]
+    del sink.records[r0:]
+    bad = 0
+    start_us = to_us(env.start_time())
+    # attribute records to actors: threads mode by thread id, nested mode by order (A logs before its onerror runs B)
+    got = {"a": [], "b": []}
+    if sc["mode"] == "nested":
+        for i, r in enumerate(recs):
+            got["a" if i == 0 else "b"].append(r)
+    else:
+        for r in recs:
+            got["a" if r["thread"].id == tids.get("a") else "b"].append(r)
+    for who in ("a", "b"):
+        ch, leaf = chains[who], sc[who]["leaf"]
+        E = ch.tags_for(leaf)
+        exp = expected_fields(E[d] if d < len(E) else PLACEHOLDER)
+        ctx.case(("shared", json.dumps(sc, sort_keys=True), who), nontrivial=True)
+        ctx.stat("shared:%s:%s:%s" % (sc["mode"], who, leaf))
+        what = None
+        errs = [e for w_, e in state["errors"] if w_ == who]
+        if errs:
+            what = "actor raised / hung: %s" % errs[0]
+            obs = {"error": errs[0]}
+        elif len(got[who]) != 1:
+            what = "%d records instead of one" % len(got[who])
+            obs = {"records": len(got[who])}
+        else:
+            rec = got[who][0]
+            obs = observed_fields(rec)
+            if d >= len(E):
+                what = None          # beyond the actor's own chain: the frames below belong to the harness / the other actor
+            elif obs != exp:
+                what = "record names %r, expected %r" % (obs, exp)
+            elif rec["thread"].id != tids[who]:
+                what = "record thread id %r, calling thread %r" % (rec["thread"].id, tids[who])
+            if verbose:
+                print("  actor %s (%s): expected %r\n             observed %r" % (who, leaf, exp, obs))
+            if what is None and d < len(E) and lines is not None and getattr(rec["time"], "tzinfo", None) is not None:
+                toks = ["c", enc(SHAPE_OF[leaf]), str(d), str(rec["thread"].id), str(os.getpid()), str(to_us(rec["time"])),
+                        str(start_us)]
+                for (gname, file, func, line) in E[:d + 2]:
+                    toks += ["!" if gname is MISSING else "~" if gname is None else enc(gname) if isinstance(gname, str) else "~",
+                             enc(file), enc(func), str(line)]
+                impl = "ok %s s:%s i:%d s:%s s:%s s:%s i:%d i:%d i:%d i:%d" % (
+                    "n" if obs["name"] is None else "s:" + enc(obs["name"]), enc(obs["function"]), obs["line"],
+                    enc(obs["module"]), enc(obs["file"]), enc(obs["path"]), rec["thread"].id, rec["process"].id,
+                    to_us(rec["time"]), td_us(rec["elapsed"]))
+                lines.append(" ".join(toks))
+                pending_cmp.append((impl, {"stream": "shared", "scenario": sc, "actor": who}, None, False))
+        if what is not None:
+            bad += 1
+            other = "b" if who == "a" else "a"
+            report(ctx, "shared catcher object (%s, depth=%d): actor %s leaves `%s` while actor %s is inside the exit of `%s` on the "
+                        "same object: %s" % (sc["mode"], d, who, leaf, other, sc[other]["leaf"], what),
+                   {"stream": "shared", "scenario": sc, "actor": who, "expected": exp, "observed": obs})
+    return bad
+
+
+def gen_shared(rng):
+    a = {"state": rng.fork("a").s, "nlinks": rng.range(1, 4), "leaf": rng.choice(SHARED_LEAVES)}
+    b = {"state": rng.fork("b").s, "nlinks": rng.range(1, 4), "leaf": rng.choice(SHARED_LEAVES)}
+    return {"a": a, "b": b, "mode": rng.choice(["threads", "nested", "nested"]), "depth": rng.choice([0, 0, 0, 1, 1, 2]),
+            "same_wrappers": rng.chance(60), "bind": rng.chance(20)}
+
+
+def stream_shared(ctx, env, corr):
+    rng = ctx.rng.fork("shared")
+    # every ordered pair of exit kinds once in each mode, then random scenarios
+    todo = []
+    for mode in ("nested", "threads"):
+        for la in SHARED_LEAVES:
+            for lb in SHARED_LEAVES:
+                if mode == "threads" and not ctx.quick or mode == "nested" or rng.chance(25):
+                    sc = gen_shared(rng)
+                    sc["mode"] = mode
+                    sc["a"]["leaf"], sc["b"]["leaf"] = la, lb
+                    todo.append(sc)
+    for _ in range(ctx.n(30, 800)):
+        todo.append(gen_shared(rng))
+    for sc in todo:
+        run_shared(ctx, env, sc, corr.lines, corr.want)
+        ctx.stat("shared_scenarios")
+        if len(ctx.violations) >= 25:
+            break
 
 
 CORPUS_DIR = os.path.join(core.VERIF, "corpus", "C17")
@@ -1340,6 +1567,9 @@ def run_corpus(ctx, env, lines, pending_cmp):
             judge_ops(ctx, run_identity_inproc(env, c["scenario"]), {"stream": "identity", "scenario": c["scenario"]},
                       "in-process " + c["scenario"]["actor"])
             continue
+        if c.get("stream") == "shared":
+            run_shared(ctx, env, c["scenario"], lines, pending_cmp)
+            continue
         if c.get("stream") == "identity-mp":
             obs, = run_identity_mp([c["scenario"]])
             judge_ops(ctx, obs, {"stream": "identity-mp", "scenario": c["scenario"]},
@@ -1350,24 +1580,63 @@ def run_corpus(ctx, env, lines, pending_cmp):
 
 
 class Corr:
-    """correspondence stream: the Lean model on the same cases, flushed in batches"""
+    """correspondence stream: the Lean model on the same cases, in batches.  A batch may run in the BACKGROUND (the
+    interpreted driver is a separate process: it works while the harness generates the next cases); results are always
+    compared in the main thread, one driver at a time, and no batch is in flight while a stream forks."""
 
     def __init__(self, ctx):
         self.ctx, self.lines, self.want, self.err, self.ndis = ctx, [], [], None, 0
         self.drv = core.Driver(DRIVER)
+        self.thread, self.inflight = None, None
 
-    def flush(self, force=False):
-        if not self.lines or (len(self.lines) < 15000 and not force):
+    def _drive(self, lines, box):
+        try:
+            box["out"] = self.drv.run(lines)
+        except core.DriverError as e:      # remembered; the direct oracle keeps its whole budget
+            box["err"] = e
+        except BaseException as e:  # noqa: BLE001 - re-raised in the main thread
+            box["crash"] = e
+
+    def wait(self):
+        """finish the batch in flight (if any) and compare it"""
+        if self.thread is not None:
+            self.thread.join(600)
+            if self.thread.is_alive():
+                raise RuntimeError("C17 harness: the Lean driver did not answer within 600 s")
+            self.thread = None
+        if self.inflight is None:
             return
+        want, box = self.inflight
+        self.inflight = None
+        if "crash" in box:
+            raise box["crash"]
+        if "err" in box:
+            if self.err is None:
+                self.err = box["err"]
+            return
+        self._compare(want, box["out"])
+
+    def flush(self, force=False, background=False, threshold=15000):
+        if getattr(self.ctx, "no_driver", False):
+            del self.lines[:], self.want[:]
+            return
+        if not self.lines or (len(self.lines) < threshold and not force):
+            return
+        self.wait()
         lines, want = self.lines[:], self.want[:]
         del self.lines[:], self.want[:]
         if self.err is not None:
             return
-        try:
-            out = self.drv.run(lines)
-        except core.DriverError as e:      # remembered; the direct oracle keeps its whole budget
-            self.err = e
-            return
+        box = {}
+        self.inflight = (want, box)
+        if background:
+            self.thread = threading.Thread(target=self._drive, args=(lines, box), name="c17-driver")
+            self.thread.start()
+        else:
+            self._drive(lines, box)
+            self.wait()
+
+    def _compare(self, want, out):
         ctx = self.ctx
         for w, o in zip(want, out):
             ctx.traces_validated += 1
@@ -1387,16 +1656,67 @@ class Corr:
                               "replay=%r\n impl =%s\n model=%s" % (replay, impl, o))
 
 
+class _StopReplay(Exception):
+    pass
+
+
+class RerunCtx:
+    """ctx of a replay that re-executes the recorded run (same seed, same tier) up to its first violation: needed when
+    the failure depends on state the implementation kept from EARLIER calls of the run (a cache across calls, chains,
+    streams), which no isolated case can rebuild"""
+    no_driver = True
+
+    def __init__(self, seed, quick, findings):
+        self.rng, self.quick, self.violations, self.findings, self.broken = core.Rng(seed), quick, [], findings, []
+        self.traces_validated, self.search_boost, self.stats = 0, False, {}
+
+    def n(self, q, t):
+        return q if self.quick else t
+
+    def violation(self, what, replay, key=None, kind="oracle"):
+        if any(f.get("status") == "known" and key is not None and key == f.get("key") for f in self.findings):
+            return False
+        self.violations.append({"what": what, "replay": replay, "key": key, "kind": kind})
+        raise _StopReplay()
+
+    def case(self, *a, **k):
+        pass
+
+    stat = sample = note = broke = case
+
+
+def rerun_until_first_violation(ctx, rep):
+    """returns the first violation of the re-executed run (or None)"""
+    r2 = RerunCtx(rep.get("seed", 0), rep.get("tier", "quick") == "quick", getattr(ctx, "findings", []))
+    try:
+        run(r2)
+    except _StopReplay:
+        pass
+    return r2.violations[0] if r2.violations else None
+
+
 def run(ctx):
     env = Env()
     corr = Corr(ctx)
+    _t = [time.time()]
+
+    def phase(name):
+        now = time.time()
+        ctx.stat("ms:" + name, int((now - _t[0]) * 1000))
+        _t[0] = now
     boost = 4 if getattr(ctx, "search_boost", False) else 1
     try:
         run_corpus(ctx, env, corr.lines, corr.want)
         stream_fallback(ctx, env)
+        phase("corpus")
         stream_identity(ctx, env)
+        phase("identity")
         stream_identity_mp(ctx, env)
-        nchains = ctx.n(380, 9000) * boost
+        phase("identity_mp")
+        stream_shared(ctx, env, corr)
+        phase("shared")
+        corr.flush(force=True, background=True)       # nothing forks from here to the end of the product sweeps
+        nchains = ctx.n(350, 5000) * boost
         for i in range(nchains):
             crng = ctx.rng.fork("chain%d" % i)
             state = crng.s
@@ -1408,14 +1728,17 @@ def run(ctx):
             if i < 2 and corr.want:
                 ctx.sample({"stream": "chain", "chain_state": state, "model_line": corr.lines[-1][:300],
                             "impl": corr.want[-1][0][:300]})
-            corr.flush()
+            corr.flush(background=True, threshold=3000)
             if len(ctx.violations) >= 25:
                 break
+        phase("chains")
         # exhaustive product of entry points on one short chain per thread kind
         for tag, in_thread in (("product-main", False), ("product-worker", True)):
             prng = ctx.rng.fork(tag)
             run_chain(ctx, env, prng.s, 2, in_thread, False, "product", corr.lines, corr.want)
-            corr.flush()
+            corr.flush(background=True, threshold=3000)
+        corr.wait()                                  # the streams below fork: no driver thread in flight
+        phase("product")
         ctx.exhaustive = True
         ctx.note("exhaustive: methods x derivations x leaves x {0, 1, beyond} on one chain in the main and in a worker thread")
         stream_timezone(ctx, env)
@@ -1423,9 +1746,19 @@ def run(ctx):
         cmp_paths = []
         stream_paths(ctx, corr.lines, cmp_paths)
         corr.want.extend(("path", p, exp) for p, exp in cmp_paths)
+        phase("tz_fork_paths")
         corr.flush(force=True)
-    finally:
+        phase("driver_final")
+    except BaseException:
         env.close()
+        try:
+            corr.wait()        # do not leave a driver process behind while unwinding
+        except Exception:  # noqa: BLE001
+            pass
+        raise
+    else:
+        env.close()
+        corr.wait()
     seen, uniq = set(), []
     for b in ctx.broken:
         if b["name"] not in seen:
@@ -1436,7 +1769,7 @@ def run(ctx):
         raise corr.err
 
 
-def replay(ctx, rep):
+def _replay_isolated(ctx, rep):
     r = rep["replay"]
     env = Env()
     try:
@@ -1454,6 +1787,13 @@ def replay(ctx, rep):
                 print("implementation:", cmp_[-1][0])
         else:
             before = len(ctx.violations)
+            if r["stream"] == "shared":
+                print("scenario:", json.dumps(r["scenario"]))
+                nb = run_shared(ctx, env, r["scenario"], verbose=True)
+                for v in ctx.violations[before:]:
+                    print(v["what"])
+                print("REPRODUCED" if nb else "not reproduced")
+                return 1 if nb else 0
             if r["stream"] in ("identity", "identity-mp"):
                 print("scenario:", json.dumps(r["scenario"]))
                 obs = run_identity_inproc(env, r["scenario"]) if r["stream"] == "identity" else run_identity_mp([r["scenario"]])[0]
@@ -1473,3 +1813,18 @@ def replay(ctx, rep):
         env.close()
     print("REPRODUCED" if bad else "not reproduced")
     return 1 if bad else 0
+
+
+def replay(ctx, rep):
+    rc = _replay_isolated(ctx, rep)
+    if rc or "seed" not in rep:
+        return rc
+    print("not reproduced in isolation: the failure may depend on state kept from earlier calls of the run;")
+    print("re-executing the recorded run (seed %s, tier %s) up to its first violation ..." % (rep.get("seed"), rep.get("tier")))
+    v = rerun_until_first_violation(ctx, rep)
+    if v is None:
+        print("not reproduced")
+        return 0
+    print(v["what"])
+    print("REPRODUCED (by re-executing the run)")
+    return 1
